@@ -72,6 +72,25 @@ MULTIBYTE_MALFORMED = ["{\"cat\": [\"" + "a" * k + "\u00e9\u65e5\U0001F600" * 12
                       ["[" + "\"" + "\u00e9" * k + "\", " for k in (18, 19, 20, 37, 38, 39, 40, 60, 61, 62, 63, 64)]
 
 
+def _eval_error_texts():
+    """Rules whose *evaluation* fails while holding a long multi-byte value (an error message that quotes,
+    shortens or measures it), at every alignment of a 9-byte group of a 4-, a 3- and a 2-byte character."""
+    out = []
+    for n in (30, 60, 300):
+        for k in range(9):
+            sv = "a" * k + "\U0001F600\u65e5\u00e9" * n
+            js = json.dumps(sv, ensure_ascii=False)
+            for rule in ('{"+":[%s]}' % js, '{"*":[2,%s]}' % js, '{"-":[%s,1]}' % js, '{"substr":[1,%s]}' % js, '{"in":[1,%s]}' % js, '{"var":[[%s]]}' % js, '{"missing_some":[%s,["a"]]}' % js,
+                         '{"map":[%s,1]}' % js, '{"all":[{"k":%s},1]}' % js, '{"/":[1,[%s,2]]}' % js, '{"max":[1,{"k":%s}]}' % js, '{"reduce":[%s,1,0]}' % js, '{"==":[%s]}' % js, '{"<":%s}' % js):
+                out.append((rule, "null"))
+            out.append(('{"+":[{"var":"v"}]}', json.dumps({"v": sv}, ensure_ascii=False)))
+            out.append(('{"in":[1,{"var":"v"}]}', json.dumps({"v": {"k": sv}}, ensure_ascii=False)))
+    return out
+
+
+EVAL_ERROR_TEXTS = _eval_error_texts()
+
+
 def deep(n, open_="[", close="]", leaf="1"):
     return open_ * n + leaf + close * n
 
@@ -168,6 +187,8 @@ def cli_lane(pid, tier, seed, agg, meta, profiles=("debug", "release")):
     for t in MULTIBYTE_MALFORMED:
         pairs.append((t, "null")); classes.append("invalid-rule-multibyte")
         pairs.append(("{\"var\":\"a\"}", t)); classes.append("invalid-data-multibyte")
+    for r_, d_ in (EVAL_ERROR_TEXTS[::5] if tier == "quick" else EVAL_ERROR_TEXTS):
+        pairs.append((r_, d_)); classes.append("evaluation-error-long-multibyte")
     # over-limit nesting: must be an orderly failure (exit 1), never a stack overflow
     for n in (129, 200, 1000, 20000, 45000):
         pairs.append((deep(n), "null")); classes.append("over-limit-rule")
@@ -342,6 +363,52 @@ def cli_lane(pid, tier, seed, agg, meta, profiles=("debug", "release")):
                     m["violations"] += 1
                     rep["violations"].append({"monitor": "c18.write-failure", "sig": "exit-zero-without-result-line:closed-pipe", "rule": r, "data": d, "expected": "a non-zero exit status (or death by SIGPIPE) when the result line cannot be written",
                                               "got": {"exit": rc}, "note": "exit status 0 although no result line was delivered (stdout = a pipe without a reader)", "lane": "cli-" + profile, "direct": False, "count": 1})
+        # the result goes to a terminal: what is printed is still one line holding the serialisation
+        if pid == "C18":
+            import pty as _pty
+            m = mons.setdefault("c18.tty-stdout", {"observed": 0, "judged": 0, "unjudged": 0, "violations": 0})
+            tty_out = [((r, d), o) for (r, d), o in zip(pairs, oracle) if len(r) < 1500 and len(d) < 1500 and "\x00" not in r + d and "ok" in o["ret"] and len(o["ret"]["ok"]) < 1500][:: max(1, len(pairs) // 60)][: (24 if tier == "quick" else 120)]
+            extra = [("{\"var\":\"\"}", "{\"a\":[1,2,{\"b\":null}],\"c\":\"x\"}"), ("{\"merge\":[[1,2],[3]]}", "null"), ("{\"map\":[[1,2],{\"log\":{\"var\":\"\"}}]}", "null"), ("{\"cat\":[\"\u00e9\",\"\U0001F600\"]}", "null"), ("{\"var\":\"\"}", "[]"), ("{\"var\":\"\"}", "{}")]
+            tty_out += list(zip(extra, libcall(jlmon, extra)))
+            for (r, d), o in tty_out:
+                argv = [binary] + (["--"] if r.startswith("-") or d.startswith("-") else []) + [r, d]
+                master, slave = _pty.openpty()
+                try:
+                    p = subprocess.Popen(argv, stdin=subprocess.DEVNULL, stdout=slave, stderr=subprocess.PIPE, close_fds=True)
+                    os.close(slave)
+                    chunks = []
+                    while True:
+                        try:
+                            b = os.read(master, 65536)
+                        except OSError:
+                            break
+                        if not b:
+                            break
+                        chunks.append(b)
+                    err = p.stderr.read()
+                    rc = p.wait(timeout=40)
+                    out = b"".join(chunks).replace(b"\r\n", b"\n")
+                except subprocess.TimeoutExpired:
+                    p.kill()
+                    rc, out, err = None, b"", b"timeout"
+                finally:
+                    try:
+                        os.close(master)
+                    except OSError:
+                        pass
+                rep["evaluations"] += 1
+                m["observed"] += 1
+                m["judged"] += 1
+                hashes.add(hkey("tty-out", r, d))
+                rep["cells"]["stdout:tty"] = rep["cells"].get("stdout:tty", 0) + 1
+                vio, _ = judge_cli(pid, r, d, "arg", profile, o, rc, out, err)
+                for v in vio:
+                    if v["monitor"].startswith("c18."):
+                        v["monitor"] = "c18.tty-stdout"
+                        v["sig"] = "tty:" + v["sig"]
+                        v["note"] += " [standard output is a terminal]"
+                        m["violations"] += 1
+                    rep["violations"].append(v)
         # a producer that is slow or delivers the document in pieces: nothing arrives for 1.2 s, or the
         # text arrives in three writes with pauses (the cuts fall anywhere, also inside a character)
         if pid == "C18":
@@ -710,6 +777,7 @@ def py_lane(pid, tier, seed, agg, meta, profiles=("debug", "release")):
     for t in MULTIBYTE_MALFORMED:
         pairs.append((t, "null"))
         pairs.append(("{\"var\":\"a\"}", t))
+    pairs.extend(EVAL_ERROR_TEXTS if tier != "quick" or pid in ("C19", "C01") else EVAL_ERROR_TEXTS[::7])
     oracle = libcall(jlmon, pairs)
     d = os.path.join(O.OUT, pid, "py")
     os.makedirs(d, exist_ok=True)
